@@ -607,3 +607,9 @@ PROPS["C12"]["level_text"] += (" Table obligations regenerated from the source o
                                "carries `.with_id(..)` unless it belongs to the id-less handshake.")
 PROPS["C06"]["theorems"] = list(PROPS["C06"]["theorems"]) + ["Narwhal.Theorems.C12Table"]
 PROPS["C06"]["expect_theorems"] = list(PROPS["C06"]["expect_theorems"]) + ["Narwhal.Server.errors_table_ok", "Narwhal.Server.closing_reasons_ok"]
+
+
+# C05: correspondence of the micro-step model with the real server (every modulator call parked; the harness decides which
+# notification returns when and with what, which connections close; the same schedule in the model's labels)
+PROPS["C05"]["suites"]["micro"] = {"kind": "lines", "nvh_suite": "micro", "driver_suite": "micro", "op_prefixes": ["mi "],
+                                   "cases": {"quick": 1500, "thorough": 60000}, "oracle_tags": ["C05"]}
